@@ -53,3 +53,82 @@ def run(ctx, fx, file, struct_path, cursors=("head", "tail"), bounded_fields=("l
                               "buffer" % (fld.rsplit("::", 1)[-1], st[3]), fn.file, st[3])
     ctx.instance(rule + ".stores", n)
     return n
+
+
+# ------------------------------------------------------------------ R-WRAP.pow2
+def mask_needs_power_of_two(ctx, fx, files, rule="R-WRAP.pow2"):
+    """`x & (capacity - 1)` equals `x % capacity` only for a power-of-two capacity. For every struct in the ring-buffer
+    files: if one of its methods computes `_ & m` with m derived from `something - 1` (or a `*mask*` field / constant)
+    in a function that also stores a cursor (a field or atomic named head / tail / read_pos / write_pos ...), then some
+    method of the same struct establishes the power of two (`next_power_of_two`, `is_power_of_two`, a helper named
+    *power_of_two*)."""
+    import re as _re
+    by_struct = {}
+    for f in files:
+        for fid in fx.fn_ids(f):
+            if "::tests::" in fid or "{closure" in fid:
+                continue
+            st = (fx.raw(fid)["self_ty"] or "").split("<")[0]
+            if st:
+                by_struct.setdefault((f, st), []).append(fid)
+    n = 0
+    for (f, st), fids in sorted(by_struct.items()):
+        masks = []
+        pow2 = False
+        for fid in fids:
+            fn = Fn(fx.raw(fid))
+            for b, c in fn.calls():
+                if _re.search(r"power_of_two", c["f"]):
+                    pow2 = True
+            cursor_store = False
+            for loc, s in fn.iter_locs():
+                if s[0] == "a" and len(s[1]) > 1 and isinstance(s[1][-1], str) and _re.search(r"::(head|tail|read_pos|write_pos|front|back)$", s[1][-1]):
+                    cursor_store = True
+                elif s[0] == "call" and s[1]["f"].rsplit("::", 1)[-1] == "store" and s[1]["a"]:
+                    l0 = op_local(s[1]["a"][0])
+                    if l0 is not None:
+                        for d in fn.defs(l0):
+                            if d[1] == "assign" and d[2][2][0] in ("ref", "refmut") and \
+                                    any(isinstance(e, str) and _re.search(r"::(head|tail|read_pos|write_pos|front|back)$", e) for e in d[2][2][1][1:]):
+                                cursor_store = True
+            if not cursor_store:
+                continue
+            for loc, s in fn.iter_locs():
+                if s[0] == "a" and s[2][0] == "bin" and s[2][1] == "BitAnd":
+                    for m in (s[2][2], s[2][3]):
+                        lm = op_local(m)
+                        km = op_const(m)
+                        is_mask = False
+                        if lm is not None:
+                            locs, sites = fn.backslice([lm], max_nodes=25)
+                            for _, kind, pl in sites:
+                                if kind == "assign":
+                                    rv = pl[2]
+                                    if rv[0] == "bin" and rv[1] in ("Sub", "SubWithOverflow", "SubUnchecked") and op_const(rv[3]) is not None and op_const(rv[3])[0] == 1:
+                                        is_mask = True
+                                    for o in ([rv[1]] if rv[0] == "use" else []):
+                                        p = op_place(o)
+                                        if p and any(isinstance(e, str) and _re.search(r"mask", e, _re.I) for e in p[1:]):
+                                            is_mask = True
+                                elif kind == "call" and _re.search(r"wrapping_sub$|mask", pl["f"], _re.I):
+                                    is_mask = True
+                            if _re.search(r"MASK", fn.local_name(lm) or ""):
+                                is_mask = True
+                        elif km is not None and isinstance(m, list) and len(m) > 2 and isinstance(m[1], (str, type(None))) and m[1] is None:
+                            # an unevaluated associated constant (`Self::INDEX_MASK`)
+                            is_mask = True
+                        if is_mask:
+                            masks.append((fid, s[3]))
+        if not masks:
+            continue
+        n += 1
+        ctx.analysed_fns.add(masks[0][0])
+        ctx.obligation(rule, st, "mask wrap backed by a power-of-two capacity", pow2,
+                       sample={"struct": st, "mask_sites": masks[:3], "power_of_two_established": pow2})
+        if not pow2:
+            ctx.violation(rule, masks[0][0], "cursor wrapped with a mask, capacity never made a power of two",
+                          "%s wraps a cursor with `& (n - 1)` (line %s) but no method of %s rounds the capacity to, or checks it for, a "
+                          "power of two: for any other capacity the cursor skips slots and revisits others"
+                          % (masks[0][0].rsplit("::", 1)[-1], masks[0][1], st.rsplit("::", 1)[-1]), fx.raw(masks[0][0])["file"], masks[0][1])
+    ctx.instance(rule + ".structs", n)
+    return n
